@@ -38,6 +38,8 @@ func main() {
 		cmdReplay(os.Args[2:])
 	case "list":
 		cmdList(os.Args[2:])
+	case "sweep":
+		cmdSweep(os.Args[2:])
 	default:
 		fmt.Fprintln(os.Stderr, "unknown command", os.Args[1])
 		os.Exit(2)
@@ -292,4 +294,94 @@ func cmdList(args []string) {
 		}
 		fmt.Printf("%s\t%s%s\n", k, shortFile(pos.Filename), flag)
 	}
+}
+
+
+// cmdSweep: zero-annotation safety sweep (development aid): every function of the
+// given packages that has NO contract is executed symbolically with arbitrary inputs
+// and its safety obligations (bounds, division, nil map write, negative make, nil
+// call, failed type assertion, reachable panic) are attempted.  Failures are
+// candidates for triage only - without preconditions most are "needs a contract".
+func cmdSweep(args []string) {
+	fs := flag.NewFlagSet("sweep", flag.ExitOnError)
+	pkgs := fs.String("pkgs", "", "comma-separated package patterns")
+	timeout := fs.Int("timeout", 5, "solver timeout per obligation (s)")
+	out := fs.String("out", "/verif/out/sweep", "output dir")
+	kinds := fs.String("kinds", "bounds,div,mapwrite,makeslice,assert", "safety kinds to report")
+	fs.Parse(args)
+	e := NewEngine(envOr("VERIF_REPO", "/repo"), envOr("VERIF_DIR", "/verif"))
+	if err := e.Load(strings.Split(*pkgs, ",")); err != nil {
+		fmt.Fprintln(os.Stderr, "load:", err)
+		os.Exit(2)
+	}
+	want := map[string]bool{}
+	for _, k := range strings.Split(*kinds, ",") {
+		want[k] = true
+	}
+	loaded := map[string]bool{}
+	for _, p := range e.pkgs {
+		loaded[p.PkgPath] = true
+	}
+	var fns []*ssa.Function
+	for fn := range e.allFuncs {
+		if fn.Blocks == nil || fn.Synthetic != "" || fn.Pkg == nil || !loaded[fn.Pkg.Pkg.Path()] {
+			continue
+		}
+		if strings.HasSuffix(e.fset.Position(fn.Pos()).Filename, "_test.go") {
+			continue
+		}
+		if e.contractFor(fn) != nil {
+			continue
+		}
+		fns = append(fns, fn)
+	}
+	sort.Slice(fns, func(i, j int) bool { return fns[i].String() < fns[j].String() })
+	pre := ""
+	if ms, _ := filepath.Glob("/verif/spec/*.smt2"); ms != nil {
+		sort.Strings(ms)
+		for _, m := range ms {
+			if strings.HasSuffix(m, ".lemmas.smt2") {
+				continue
+			}
+			b, _ := os.ReadFile(m)
+			if pl, err := BuildPrelude(string(b)); err == nil {
+				pre += pl.VCText + "\n"
+			}
+		}
+	}
+	var gens []*Gen
+	skipped := 0
+	for _, fn := range fns {
+		g, err := e.VerifyFunc(fn, nil)
+		if err != nil {
+			skipped++
+			continue
+		}
+		var keep []*Obligation
+		for _, o := range g.obls {
+			if want[o.Kind] {
+				keep = append(keep, o)
+			}
+		}
+		g.obls = keep
+		if len(keep) > 0 {
+			gens = append(gens, g)
+		}
+	}
+	solveAll(gens, pre, *out, *timeout, 14)
+	n, bad := 0, 0
+	for _, g := range gens {
+		for _, o := range g.obls {
+			n++
+			if o.Result == nil || o.Result.Status != "unsat" {
+				bad++
+				st := "?"
+				if o.Result != nil {
+					st = o.Result.Status
+				}
+				fmt.Printf("%-8s %-70s %s  %s\n", st, o.Name, o.Pos, o.Src)
+			}
+		}
+	}
+	fmt.Printf("sweep: %d functions (%d outside the subset), %d safety obligations, %d not discharged\n", len(fns), skipped, n, bad)
 }
